@@ -6,4 +6,5 @@ Extraction "m.ml" xb_add xb_mul xb_div_eucl
   public_of dser dpar dpub handle_from_proto write_cleartext read_cleartext write_encrypted read_encrypted public_handle
   keyset_schema
   canon_keyset_bytes canon_encrypted_bytes keyset_of_json_text json_text_of_keyset encrypted_of_json_text json_text_of_encrypted
-  write_cleartext_json read_cleartext_json.
+  write_cleartext_json read_cleartext_json
+  json_text_pj_of_keyset json_text_pj_of_encrypted write_cleartext_json_pj.
